@@ -239,16 +239,16 @@ func checkC06() int {
 // variants; for pairs of names (A, B) the program  let probe(x : A) : B = fwd self x  (or the
 // same through a call of an identity function) must be accepted iff A and B are equal
 // (bisimilar fully moded trees, R3).
-func eqProbes(c *Check, pool *sup.Pool) {
-	r := rand.New(rand.NewSource(subSeed(c.Seed, 7070)))
-	nEnv, perEnv := c.pick(150, 2500), c.pick(10, 16)
-	type probe struct {
-		text string
-		a, b string
-		want bool
-		kind string
-	}
-	var ps []probe
+type eqProbe struct {
+	text string
+	a, b string
+	want bool
+	kind string
+}
+
+func genEqProbes(seed int64, nEnv, perEnv int) []eqProbe {
+	r := rand.New(rand.NewSource(seed))
+	var ps []eqProbe
 	for e := 0; e < nEnv; e++ {
 		defs, _ := rtypes.GenDefs(r, 0)
 		if an := rtypes.Analyze(defs); !an.WF {
@@ -280,9 +280,14 @@ func eqProbes(c *Check, pool *sup.Pool) {
 				kind = "forward"
 				prog = fmt.Sprintf("%slet probe(x : %s) : %s = fwd self x\n", text, a, b)
 			}
-			ps = append(ps, probe{prog, a, b, want, kind})
+			ps = append(ps, eqProbe{prog, a, b, want, kind})
 		}
 	}
+	return ps
+}
+
+func eqProbes(c *Check, pool *sup.Pool) {
+	ps := genEqProbes(subSeed(c.Seed, 7070), c.pick(150, 2500), c.pick(10, 16))
 	jobs := make([]sup.Job, len(ps))
 	for i, p := range ps {
 		jobs[i] = sup.Job{Kind: "typecheck", Text: p.text, TypeBudget: 5000000}
@@ -352,7 +357,7 @@ func tcTotality(o *sup.Outcome) string {
 func checkC09() int {
 	c := NewCheck("C09")
 	pool := newPool()
-	c.Rule = "texts the parser accepts: corpus, G1 programs, single-edit mutants of every family (incl. explicit polarities on every kind of name position and ill-formed type definitions), G3 token soups and prefix/mutation variants of corpus files that happen to parse; oracle: the worker survives, a verdict is returned, success implies the checker ran to its end, and no checking step happens after the verdict; hangs are decided by a logical step budget in the type algorithms; non-trivial = distinct text that parsed and was typechecked"
+	c.Rule = "texts the parser accepts: corpus, G1 programs, single-edit mutants of every family (incl. explicit polarities on every kind of name position and ill-formed type definitions), G3 token soups and prefix/mutation variants of corpus files that happen to parse, type-equality probes (forward / call / cut between two names of a G2 environment with unrolled, aliased and one-difference variants); oracle: the worker survives, a verdict is returned, success implies the checker ran to its end, and no checking step happens after the verdict; hangs are decided by a logical step budget in the type algorithms; non-trivial = distinct text that parsed and was typechecked"
 	c.Assumptions = []string{"a stack overflow or runtime panic anywhere in the worker during or after a typecheck job is attributed to that job", "wall-clock watchdogs only ever produce 'inconclusive'"}
 	var texts []string
 	var tags []string
@@ -365,8 +370,13 @@ func checkC09() int {
 		if i%2 == 0 {
 			return mixedOpt(i / 2)
 		}
-		o := polOpt(i) // explicit polarities on a quarter of all name occurrences
+		o := polOpt(i) // explicit polarities on a third of all name occurrences
 		o.Pol = 30
+		if i%4 == 1 {
+			// constructor functions (send / select / cast on self with parameters whose types are
+			// type names) with explicit polarities on most names
+			o.Pol, o.Ctor = 55, 70
+		}
 		return o
 	})
 	for _, pc := range cases {
@@ -386,6 +396,11 @@ func checkC09() int {
 	}
 	for _, t := range soupTexts(c, c.pick(1500, 40000)) {
 		add("G3", t)
+	}
+	// type-equality probes: the checker compares pairs of (equal or nearly equal, often
+	// out-of-phase recursive) names of G2 environments
+	for _, p := range genEqProbes(subSeed(c.Seed, 9090), c.pick(100, 2000), c.pick(8, 12)) {
+		add("eq-probe", p.text)
 	}
 	// users of deep chains of branching definitions (type equality must stay polynomial)
 	for _, n := range []int{12, 24, 40} {
